@@ -160,6 +160,16 @@ class AWSElastiCacheHashClient(HashClient):
         old_clients = self.clients.copy()
         self.clients.clear()
 
+        # the rotation is rebuilt from the advertised list: take the nodes of the
+        # previous configuration out of it (and forget their failover state)
+        for key in old_clients:
+            try:
+                self.hasher.remove_node(key)
+            except ValueError:
+                pass  # already out of rotation (marked dead)
+        self._failed_clients.clear()
+        self._dead_clients.clear()
+
         for server in self._get_nodes_list():
             self.add_server(normalize_server_spec(server))
 
